@@ -24,8 +24,16 @@ Where the statement ("first block in file order that applies") and the two-walk 
  * a `host` criterion whose outcome differs between the raw and the %h-expanded HostName: name only run, not compared.
 Oracle: lookup(name) == model for every key (no extra keys); repeated lookups on one object agree;
 get_hostnames() == all Host pattern tokens plus the implicit "*" and never raises.
+
+History dimension (round 3): half of the cases feed ONE SSHConfig object incrementally - the config text is cut into
+2-3 chunks (a chunk may start with its own global section: every parse() opens a new implicit `Host *` block), the
+object is built with SSHConfig() + parse(chunk) per chunk, and between the parse() calls a generated subset of the
+names is looked up (and get_hostnames() called). After every parse() the object must answer like the model over all
+blocks parsed SO FAR (in order): the intermediate lookups are compared with the model of the prefix, the final ones
+(same names, same object) with the model of the whole - parse / lookup / parse / lookup histories.
 """
 import getpass
+import io
 import os
 import re
 import socket
@@ -43,7 +51,10 @@ RULE = (
     "user/localuser whose outcome may depend on HostName/User values set by EARLIER or LATER blocks - two-walk model) each "
     "looked up for 1-4 names and compared key-by-key with an independent first-obtained-value model; non-trivial = for some looked-up name >=2 applicable blocks "
     "define the same key, or a negated pattern/criterion decides applicability, or a %-token is expanded; distinct by SHA-1 "
-    "of (config structure, names)"
+    "of (config structure, names). Half of the cases are HISTORIES on one SSHConfig object: the text is cut into 2-3 chunks "
+    "(optionally starting with their own global section) fed by successive parse() calls, with a generated subset of the names "
+    "looked up (and get_hostnames called) between the parse() calls; every answer is compared with the model over the blocks "
+    "parsed so far (classes history:*)"
 )
 
 NAMES = ["a", "b", "ab", "ba", "a1", "web1", "web2", "db", "a.example.com", "db.example.com", "x.y"]
@@ -158,6 +169,7 @@ C_KV = (
     + [("IdentityFile", v) for v in VALUES["IdentityFile"]]
     + [(k, v) for k in ("Port", "ProxyCommand", "ControlPath", "ForwardAgent", "Compression") for v in VALUES[k]]
 )
+C_KV_PLAIN = [kv for kv in C_KV if kv[0] not in ("User", "HostName", "Port")]
 C_TYPES = ["host", "user", "host", "user", "host", "user", "originalhost", "localuser"]
 # pattern lists that match a given HostName / User value (the coupling)
 C_FOR_HOSTNAME = {
@@ -181,10 +193,17 @@ def _coupled_block(n, anchor_host, anchor_user, anchor_name):
         return pool[take(len(pool))]
 
     is_match = take(2)
+    # (low digit: hypothesis prefers small integers, the high digits are mostly 0)
+    fin = take(6) if is_match else 0
     lines = []
     for _ in range(take(4)):
         c = take(4)
-        kv = ("HostName", anchor_host) if c == 1 else ("User", anchor_user) if c == 2 else pick(C_KV)
+        if fin >= 4:
+            # a block bound to the final walk that sets HostName/User/Port suspends the comparison of the whole name (open
+            # hostname/user/port): give it the other keys, so that what it contributes - on which walk - is compared
+            kv = pick(C_KV_PLAIN)
+        else:
+            kv = ("HostName", anchor_host) if c == 1 else ("User", anchor_user) if c == 2 else pick(C_KV)
         lines.append(_mk_line(kv, take(_NSTYLE) if take(4) == 3 else 0))
     if not is_match:
         pats = [[anchor_name if take(2) else pick(C_HOSTPATS), take(8) == 7, False] for _ in range(1 + (take(3) == 2))]
@@ -192,14 +211,22 @@ def _coupled_block(n, anchor_host, anchor_user, anchor_name):
     crit = []
     for _ in range(1 + (take(3) == 2)):
         typ = pick(C_TYPES)
+        # tied patterns: matching the value another block may contribute; in a block bound to the final walk: matching
+        # the value the criterion falls back to while nothing is obtained yet (looked-up name / local user), so that the
+        # criterion holds before and fails after some other block has contributed HostName / User
         if typ in ("user", "localuser"):
-            pool, tied = C_UCRIT, C_FOR_USER[anchor_user]
+            pool, tied = C_UCRIT, ([getpass.getuser()] if fin >= 4 else C_FOR_USER[anchor_user])
         elif typ == "host":
-            pool, tied = C_HCRIT, C_FOR_HOSTNAME[anchor_host]
+            pool, tied = C_HCRIT, ([anchor_name] if fin >= 4 else C_FOR_HOSTNAME[anchor_host])
         else:
             pool, tied = C_HOSTPATS, [anchor_name]
         pats = [[pick(tied) if take(2) else pick(pool), take(8) == 7] for _ in range(1 + (take(3) == 2))]
         crit.append([typ, take(6) == 5, pats, False])
+    # `final` next to a criterion that depends on obtained values: the block may hold on one walk only
+    if fin == 4:
+        crit.append(["final", False, [], False])
+    elif fin == 5:
+        crit.insert(0, ["final", False, [], False])
     return {"kind": "match", "kw": ["Match", " ", ""], "crit": crit, "lines": lines}
 
 
@@ -225,16 +252,42 @@ _case = st.builds(
 )
 
 
+# Histories on one object: parse(chunk 1), lookups, parse(chunk 2), lookups ...  A chunk boundary is a block
+# {"kind": "global", "lines": [...], "lookups": mask} at an index > 0: the text is cut there, the (possibly empty) lines are
+# the new chunk's global section, and bit i of mask says that names[i] is looked up on the object before this chunk is parsed.
+_KV_ALL = [(k, v) for k in VALUES for v in VALUES[k]]
+_glines = st.lists(st.builds(_mk_line, st.sampled_from(_KV_ALL), _style), max_size=2)
+_cuts = st.lists(
+    st.tuples(st.integers(0, 11), st.one_of(st.just([]), _glines), st.one_of(st.integers(1, 15), st.integers(0, 15))), min_size=1, max_size=2
+)
+
+
+def _mk_history(case, cuts):
+    blocks = list(case["blocks"])
+    for pos, lines, mask in cuts:
+        blocks.insert(1 + pos % len(blocks), {"kind": "global", "lines": lines, "lookups": mask})
+    return dict(case, blocks=blocks)
+
+
 def case_st():
-    return st.one_of(_case, _coupled)
+    return st.one_of(_case, _coupled, st.builds(_mk_history, _case, _cuts), st.builds(_mk_history, _coupled, _cuts))
 
 
-def render(case):
+def chunks(case):
+    """-> [(first block index, end block index, lookups mask before this chunk)] (one entry = plain single-parse case)."""
+    starts = [0] + [i for i, b in enumerate(case["blocks"]) if i > 0 and b["kind"] == "global"]
+    ends = starts[1:] + [len(case["blocks"])]
+    return [(a, e, case["blocks"][a].get("lookups", 0) if a > 0 else 0) for a, e in zip(starts, ends)]
+
+
+def render(case, first=0, end=None):
+    """Text of blocks[first:end] (default: everything - for a multi-chunk case that is NOT what one parse() sees)."""
+
     def q(s, quoted):
         return '"%s"' % s if quoted else s
 
     out = []
-    for b in case["blocks"]:
+    for b in case["blocks"][first:end]:
         if b["kind"] == "host":
             kw, sep, ind = b["kw"]
             out.append(ind + kw + sep + " ".join(q(("!" if neg else "") + p, quoted) for p, neg, quoted in b["pats"]))
@@ -250,7 +303,7 @@ def render(case):
             if pre is not None:
                 out.append(pre)
             out.append(ind + key + sep + q(value, quoted) + trail)
-    return case["eol"].join(out) + case["eol"]
+    return case["eol"].join(out) + case["eol"] if out else ""
 
 
 # ----------------------------------------------------------------------------- reference model
@@ -449,15 +502,29 @@ def exc_bucket(exc):
     return "%s@%s" % (type(exc).__name__, where)
 
 
-def _check_lookup(ctx, case, text, name, got, opts, info):
+def _check_lookup(ctx, case, text, name, got, opts, info, fresh=None):
+    """fresh (histories only): callable -> lookup(name) of a NEW object given the same parse() calls and nothing else; when
+    that differs from `got`, the answer depends on what was done with the object before: bucket suffix @history."""
+    hist = []
+
+    def suffix():
+        if fresh is None:
+            return ""
+        if not hist:
+            try:
+                hist.append("@history-on-the-object" if fresh() != got else "")
+            except Exception:
+                hist.append("")
+        return hist[0]
+
     env = _env(opts, name)
     env_raw = _env(opts, name, hostname_expanded=False)
     for key in sorted(set(opts) | set(got)):
         if key not in got:
-            ctx.violation("lookup-keys", "missing:%s" % key, case, "name=%r model has %s=%r, lookup has no such key\n%s" % (name, key, opts[key], text))
+            ctx.violation("lookup-keys", "missing:%s%s" % (key, suffix()), case, "name=%r model has %s=%r, lookup has no such key\n%s" % (name, key, opts[key], text))
             continue
         if key not in opts:
-            ctx.violation("lookup-keys", "extra:%s" % key, case, "name=%r lookup has %s=%r, no applicable block sets it\n%s" % (name, key, got[key], text))
+            ctx.violation("lookup-keys", "extra:%s%s" % (key, suffix()), case, "name=%r lookup has %s=%r, no applicable block sets it\n%s" % (name, key, got[key], text))
             continue
         if key in info["open-keys"]:
             continue  # file order and two-walk order disagree on this key: not defined, not compared
@@ -487,17 +554,40 @@ def _check_lookup(ctx, case, text, name, got, opts, info):
                     bucket = "identityfile-duplicate-within-block"
         ctx.violation(
             "lookup-value",
-            bucket,
+            bucket + suffix(),
             case,
             "lookup(%r)[%r] = %r; model (first obtained value, tokens expanded): raw %r with %%h=%r %%p=%r %%r=%r %%u=%r %%n=%r\n%s"
             % (name, key, have, want, env["h"], env["p"], env["r"], env["u"], env["n"], text),
         )
 
 
+def _history_text(case, parts, upto):
+    """The chunks fed so far, for violation details."""
+    out = []
+    for ci, (a, e, mask) in enumerate(parts[:upto]):
+        if len(parts) > 1:
+            looked = [n for i, n in enumerate(case["names"]) if mask >> i & 1]
+            out.append("---- %sparse() of chunk %d:" % ("lookups %r, then " % looked if ci else "SSHConfig(), ", ci + 1))
+        out.append(render(case, a, e))
+    return "\n".join(out)
+
+
+def _check_hostnames(ctx, case, conf, blocks, text):
+    want_hosts = {"*"} | {("!" if neg else "") + p for b in blocks if b["kind"] == "host" for p, neg, _ in b["pats"]}
+    try:
+        hosts = conf.get_hostnames()
+    except Exception as e:
+        ctx.violation("get_hostnames-raises", exc_bucket(e), case, "%r\n%s" % (e, text))
+    else:
+        if set(hosts) != want_hosts:
+            ctx.violation("get_hostnames", "wrong-set", case, "got %r want %r\n%s" % (sorted(hosts), sorted(want_hosts), text))
+
+
 def execute(ctx, case):
     from paramiko.config import SSHConfig
 
-    text = render(case)
+    parts = chunks(case)
+    text = _history_text(case, parts, len(parts))
     models = [model_lookup(case, n) for n in case["names"]]
     tokens = any("%" in (v if isinstance(v, str) else " ".join(v)) for o, _ in models for v in o.values() if v is not None)
     classes = set(b["kind"] for b in case["blocks"])
@@ -529,23 +619,65 @@ def execute(ctx, case):
             classes.add("open-key-not-compared")
         if i["idf-unordered"] and not i["skip-name"]:
             classes.add("identityfile-compared-as-set")
+    # the history: which names are looked up after which parse(), and the model over the blocks parsed by then
+    mids = []  # (chunk index, name, (opts, info) over the prefix)
+    if len(parts) > 1:
+        classes.add("history:%d-parse-calls-on-one-object" % len(parts))
+        if any(e > a and case["blocks"][a]["lines"] for a, e, _ in parts[1:]):
+            classes.add("history:later-chunk-with-own-global-section")
+        for ci, (a, e, mask) in enumerate(parts):
+            if ci == 0:
+                continue
+            prefix = {"blocks": case["blocks"][:a]}
+            for ni, name in enumerate(case["names"]):
+                if mask >> ni & 1:
+                    mids.append((ci, name, model_lookup(prefix, name)))
+        if mids:
+            classes.add("history:parse-lookup-parse-lookup")
+        else:
+            classes.add("history:parse-parse-lookup")
+        for ci, name, (popts, _pi) in mids:
+            fopts = models[case["names"].index(name)][0]
+            if popts != fopts:
+                classes.add("history:later-parse-changes-answer-for-a-name-looked-up-before")
     nontrivial = bool(classes & {"first-value-decides", "negation-decides", "token-expanded", "final-walk-only-block-contributes"})
     ctx.case(case, nontrivial, sorted(classes))
 
-    try:
-        conf = SSHConfig.from_text(text)
-    except Exception as e:
-        ctx.violation("parse-raises", exc_bucket(e), case, "%r\n%s" % (e, text))
-        return
-    # get_hostnames
-    want_hosts = {"*"} | {("!" if neg else "") + p for b in case["blocks"] if b["kind"] == "host" for p, neg, _ in b["pats"]}
-    try:
-        hosts = conf.get_hostnames()
-    except Exception as e:
-        ctx.violation("get_hostnames-raises", exc_bucket(e), case, "%r\n%s" % (e, text))
+    def fresh_lookup(nchunks, name):
+        other = SSHConfig()
+        for a, e, _ in parts[:nchunks]:
+            other.parse(io.StringIO(render(case, a, e)))
+        return dict(other.lookup(name))
+
+    if len(parts) == 1:
+        try:
+            conf = SSHConfig.from_text(text)
+        except Exception as e:
+            ctx.violation("parse-raises", exc_bucket(e), case, "%r\n%s" % (e, text))
+            return
     else:
-        if set(hosts) != want_hosts:
-            ctx.violation("get_hostnames", "wrong-set", case, "got %r want %r\n%s" % (sorted(hosts), sorted(want_hosts), text))
+        conf = SSHConfig()
+        for ci, (a, e, mask) in enumerate(parts):
+            if ci > 0:
+                sofar = _history_text(case, parts, ci)
+                _check_hostnames(ctx, case, conf, case["blocks"][:a], sofar)
+                for mci, name, (opts, info) in mids:
+                    if mci != ci:
+                        continue
+                    try:
+                        got = conf.lookup(name)
+                    except Exception as ex:
+                        ctx.violation("lookup-raises", exc_bucket(ex), case, "lookup(%r) after %d parse() calls: %r\n%s" % (name, ci, ex, sofar))
+                        return
+                    if not info["skip-name"]:
+                        _check_lookup(ctx, case, sofar, name, dict(got), opts, info, fresh=lambda: fresh_lookup(ci, name))
+            try:
+                conf.parse(io.StringIO(render(case, a, e)))
+            except Exception as ex:
+                ctx.violation("parse-raises", exc_bucket(ex), case, "parse() call %d: %r\n%s" % (ci + 1, ex, text))
+                return
+    # get_hostnames
+    _check_hostnames(ctx, case, conf, case["blocks"], text)
     # lookups (all on the same object; the first name is looked up once more at the end)
     results = []
     for name, (opts, info) in zip(case["names"] + case["names"][:1], models + models[:1]):
@@ -556,7 +688,7 @@ def execute(ctx, case):
             return
         results.append(dict(got))
         if len(results) <= len(case["names"]) and not info["skip-name"]:
-            _check_lookup(ctx, case, text, name, dict(got), opts, info)
+            _check_lookup(ctx, case, text, name, dict(got), opts, info, fresh=(lambda: fresh_lookup(len(parts), name)) if len(parts) > 1 else None)
     if results[-1] != results[0]:
         ctx.violation("lookup-repeat", "result-changes-on-repeated-lookup", case, "first %r\nagain %r\n%s" % (results[0], results[-1], text))
 
@@ -566,7 +698,7 @@ def run(ctx):
     ctx.assume("local user, home directory and short local host name are taken from getpass/os.path/socket (as documented for %u %d %L)")
     ctx.assume("%C and %l are only checked for 'token replaced by a hash / host name', their values depend on the resolver")
     ctx.assume("%u with a configured User: both the local user (ssh_config(5)) and the configured User (paramiko docs) are accepted")
-    ctx.explore(case_st(), lambda c: execute(ctx, c), ctx.scale(3000, 40000))
+    ctx.explore(case_st(), lambda c: execute(ctx, c), ctx.scale(2500, 40000))
 
 
 def replay(ctx, case):
